@@ -3,9 +3,11 @@
      integers of every width and sign print as their exact decimal representation,
      the digit tables, infinities / NaN / zeros in every format, append-only.
    NOT proved: "the text of every finite double equals the printf reference".
-   That statement is a Definition below; the faithful model REFUTES it (classes
-   KF-C10b, KF-C10c); outside those classes it is tested by the correspondence
-   run against the reference formatter of DigitModelSpec.v, not proved. *)
+   That statement is a Definition below.  The model describes Digit.hpp after
+   findings/D48 (integer zeros trimmed with the fraction) and D49 (half-way
+   rounding ignored the dropped part), which removed the two classes of
+   counterexamples; it is tested by the correspondence run against the reference
+   formatter of DigitModelSpec.v, not proved. *)
 From Coq Require Import NArith ZArith List Bool.
 From Qv Require Import gen.Tables_digit DigitModel DigitModelSpec DigitProofsInt DigitProofsReal.
 Import ListNotations.
@@ -65,11 +67,14 @@ Theorem c10_special_zero : forall fi pre number prec fmt,
 Proof. exact real_zero. Qed.
 Print Assumptions c10_special_zero.
 
-(* the full claim, kept as a statement, and its refutation on the faithful model *)
+(* the full claim, kept as a statement: NOT proved.  Until findings/D48 and D49 the faithful model
+   refuted it (classes KF-C10c and KF-C10b); after the two repairs no counterexample is known
+   and the former witnesses print the reference (computed below). *)
 Definition c10_real_matches_reference : Prop := c10_real_matches_reference_stmt.
-Theorem c10_real_matches_reference_is_refuted : ~ c10_real_matches_reference.
-Proof. exact c10_real_matches_reference_refuted. Qed.
-Print Assumptions c10_real_matches_reference_is_refuted.
+
+Theorem c10_repaired_cases : repaired_ok = true.
+Proof. exact c10_repaired_cases_ok. Qed.
+Print Assumptions c10_repaired_cases.
 
 (* strongest partial fact available inside Coq: agreement on a fixed sample (vm_compute) *)
 Theorem c10_real_partial : sample_ok = true.
